@@ -22,6 +22,8 @@ def build_od():
         return v
     var("Producer heartbeat time", 0x1017, 0, 0x6, 0)
     var("Value", 0x2000, 0, 0x6, 0)
+    var("Nibble", 0x2001, 0, 0x5, 0)
+    var("Value8", 0x2002, 0, 0x5, 0)
     com = ODRecord("TPDO1 com", 0x1800)
     od.add_object(com)
     var("n", 0x1800, 0, 0x5, 2, com)
@@ -59,7 +61,13 @@ def run_case(case: dict) -> dict:
     pdo = {"ltpdo": lnode.tpdo, "lrpdo": lnode.rpdo, "rtpdo": rnode.tpdo, "rrpdo": rnode.rpdo}[
         case.get("pdomap", "ltpdo")][1]
     pdo.cob_id = case.get("pdoid", 0x181)
-    pdo.add_variable(0x2000, 0, 16)
+    straddle = case.get("pdolayout") == "straddle"
+    if straddle:
+        # a 4-bit field, then an 8-bit object at bits 4..11: it reaches into the second byte
+        pdo.add_variable(0x2001, 0, 4)
+        pdo.add_variable(0x2002, 0, 8)
+    else:
+        pdo.add_variable(0x2000, 0, 16)
     ev = []
 
     def live():
@@ -97,8 +105,15 @@ def run_case(case: dict) -> dict:
                 pdo.cob_id = op["id"]
                 log({"e": o, "id": op["id"]})
             elif o == "pdo_set":
-                pdo[0].raw = op["d"][0] | op["d"][1] << 8
-                log({"e": o, "d": list(op["d"])})
+                if straddle:
+                    # only the 8-bit object is written; the frame the bus must carry is computed here
+                    nib = bytes(pdo.data)[0] & 0x0F
+                    pdo[1].raw = op["d"][0]
+                    frame = nib | (op["d"][0] << 4)
+                    log({"e": o, "d": [frame & 0xFF, frame >> 8]})
+                else:
+                    pdo[0].raw = op["d"][0] | op["d"][1] << 8
+                    log({"e": o, "d": list(op["d"])})
             elif o == "hb_start":
                 lnode.nmt.start_heartbeat(op["ms"])
                 log({"e": o, "ms": op["ms"]})
